@@ -95,7 +95,7 @@ def explore(cfg, nodes, events, *, label, replay, shape="", guard_impls=None, ex
     kw = dict(with_plugin=True, extra_guards=guard_impls, extra_actions=extra_actions, services=services,
               extra_markers=extra_markers)
     hs = Harness(cfg, **kw)
-    ha = Harness(cfg, **kw)
+    ha = Harness(cfg, yielding=True, **kw)   # async markers yield to the event loop once after logging
     hp = Harness(cfg, **kw)
     viol: List[Dict[str, Any]] = []
 
